@@ -522,9 +522,49 @@ def gen_text_edits(sources):
         yield Variant(file, desc, src.replace(old_, new_), expect, props, site=desc.split(':')[0])
 
 
+# ----------------------------------------------------------------------
+# behaviour-preserving refactorings written by independent sub-agents (benign/<id>/patch.diff, each with an equivalence
+# demo whose digest is identical with and without the change): every check of the file's properties must stay silent
+def gen_benign_patches(sources):
+    import os
+    import shutil
+    import subprocess
+    import tempfile
+    here = os.path.dirname(os.path.dirname(os.path.abspath(__file__)))
+    base = os.path.join(here, 'benign')
+    if not os.path.isdir(base):
+        return
+    for bid in sorted(os.listdir(base)):
+        patch = os.path.join(base, bid, 'patch.diff')
+        if not os.path.exists(patch):
+            continue
+        tmp = tempfile.mkdtemp(prefix='sa_benignvar_')
+        try:
+            os.makedirs(os.path.join(tmp, 'pytenet'))
+            for f, text in sources.items():
+                with open(os.path.join(tmp, 'pytenet', f), 'w', encoding='utf-8') as fh:
+                    fh.write(text)
+            r = subprocess.run(['git', 'apply', '--include=pytenet/*', patch], cwd=tmp, capture_output=True, text=True)
+            if r.returncode != 0:
+                continue
+            changed = {}
+            for f, text in sources.items():
+                new = open(os.path.join(tmp, 'pytenet', f), encoding='utf-8').read()
+                if new != text:
+                    changed[f] = new
+            if not changed:
+                continue
+            first = sorted(changed)[0]
+            props = list(ALL_PROPS)      # a harmless edit must leave every check silent, whichever files it reads
+            yield Variant(first, f'behaviour-preserving refactoring {bid} (benign)', changed[first], 'silent', props, site=bid,
+                          more={f: t for f, t in changed.items() if f != first})
+        finally:
+            shutil.rmtree(tmp, ignore_errors=True)
+
+
 GENERATORS = [gen_delete_increments, gen_drop_copies, gen_shift_slots, gen_dt_fractions, gen_swap_split_direction,
               gen_kernel_axes, gen_driver_swaps, gen_merge_guards, gen_family_tables, gen_dispatch, gen_krylov_slices,
-              gen_block_perms, gen_local_step_axes, gen_benign_renames, gen_benign_copies, gen_text_edits, gen_seeded]
+              gen_block_perms, gen_local_step_axes, gen_benign_renames, gen_benign_copies, gen_text_edits, gen_seeded, gen_benign_patches]
 
 
 def all_variants(sources, only_props=None, rename_every=3):
@@ -550,6 +590,7 @@ def all_variants(sources, only_props=None, rename_every=3):
 
 # ----------------------------------------------------------------------
 # robustness: renaming any local variable must not change any verdict
+ALL_PROPS = ['C01', 'C02', 'C03', 'C04', 'C05', 'C07', 'C08', 'C09', 'C10', 'C11', 'C12', 'C13', 'C14', 'C16', 'C17', 'C19']
 FILE_PROPS = {
     'mps.py': ['C01', 'C02', 'C03', 'C12', 'C13', 'C19'],
     'mpo.py': ['C01', 'C02', 'C03', 'C05', 'C19'],
